@@ -230,7 +230,7 @@ def all_jobs():
     # ---- C11: rollback of a rejected text ----
     mg = '_ZN4bloc7Context10parsingEndEv'
     J.append(dict(id='ctx_parsingEnd', src='blocc/context.cpp', contract='ctx_parsing.c', enforce=mg, roots=[mg], replace=[], cut=[],
-                  props=['C01', 'C11'], pretty='bloc::Context::parsingEnd', canaries=['normal'], unwind=6, bounded_inputs=True,
+                  props=['C01', 'C02', 'C11'], pretty='bloc::Context::parsingEnd', canaries=['normal'], unwind=6, bounded_inputs=True,
                   unwind_why='backup list of at most 3 entries over a table of 2 symbols',
                   structs=DEFAULT_STRUCTS + [STD_STRING, 'bloc::Context', 'bloc::Symbol', 'bloc::Context::MemorySlot',
                                              '__gnu_cxx::__normal_iterator<bloc::Symbol const*, std::vector<bloc::Symbol, std::allocator<bloc::Symbol> > >',
@@ -343,6 +343,11 @@ def all_jobs():
                       props=['C01', 'C18'], pretty='utf8helper::UTF8String::' + ('ToStdString' if df == 'JOB_TOSTD' else 'Remove'), canaries=['normal'], unwind=6, bounded_inputs=True,
                       unwind_why='strings of at most 3 code points (every code point value)', render_ns=['utf8helper'], enums=[],
                       structs=['utf8helper::UTF8String', 'utf8helper::Parser', STD_STRING, 'std::vector<unsigned int, std::allocator<unsigned int> >']))
+    mg = '_ZN10utf8helper10UTF8String6InsertEmRKSt6vectorIjSaIjEEPFjPKNS_9characterEiE'
+    J.append(dict(id='utf8_insert_vector', src='modules/utf8/utf8helper.cpp', contract='utf8_insert.c', enforce=mg, roots=[mg], replace=[], cut=['_ZN10utf8helper10UTF8String6InsertEmjPFjPKNS_9characterEiE'],
+                  props=['C01', 'C18'], pretty='utf8helper::UTF8String::Insert(pos, code points)', canaries=['normal'], unwind=6, bounded_inputs=True,
+                  unwind_why='a store of at most 2 and an argument of at most 2 code points (every value; the argument may be the store itself)', render_ns=['utf8helper'], enums=[],
+                  structs=['utf8helper::UTF8String', 'utf8helper::Parser', STD_STRING, 'std::vector<unsigned int, std::allocator<unsigned int> >']))
     # ---- generic builtin contracts (C01, C05): one job per builtin listed here ----
     for ent in BUILTINS_GENERIC:
         name, cls, nargs = ent[0], ent[1], ent[2]
